@@ -54,3 +54,22 @@ Definition line_spec_files (id : Z) (g : Scc.graph) (comps : list (list nat)) (l
   if Scc.wfb g then line_spec id g comps largest else line "S" id "LoadErr".
 Definition line_load_failed (id : Z) (g : Scc.graph) : string :=
   line "S" id (if Scc.wfb g then "a loaded graph" else "LoadErr").
+
+(* SEQUENCE cases: several analyses in a row on one thread; every step is judged for its own
+   graph.  A step whose Graph value mentions an edge id missing from the edge table is not a
+   graph of the model: the specified outcome is the error (constant "Err EdgeNotFound" written
+   by the harness into both lists).  The M / S line joins the per-step payloads. *)
+Definition payload_model (g : Scc.graph) : string :=
+  match Scc.all_strongly_connected_components g, Scc.largest_strongly_connected_component g with
+  | Ok comps, Ok l => "Ok " ++ payload comps l
+  | Ok _, r => show_res show_comp r
+  | r, _ => show_res (fun _ => "") r
+  end.
+Definition payload_spec (g : Scc.graph) (comps : list (list nat)) (largest : list nat) : string :=
+  if negb (Scc.wfb g) then "unspecified"
+  else if Scc.check_scc g comps && Scc.check_largest comps largest
+       then "Ok " ++ payload comps largest
+       else "REJECT classes=" ++ show_bool (Scc.check_scc g comps)
+            ++ " largest=" ++ show_bool (Scc.check_largest comps largest).
+Definition line_seq (tag : string) (id : Z) (parts : list string) : string :=
+  line tag id (join " || " parts).
